@@ -60,7 +60,7 @@ class Path:
         n = len(self.events)
         gp = tuple(gpos) if gpos is not None else tuple(0 for _ in guards)
         return Path(self.guards + tuple(guards), self.events + tuple(events), exit,
-                    self.gpos + tuple(n + p for p in gp))
+                    self.gpos + tuple((n + p) if p is not None else None for p in gp))
 
     def feasible(self):
         """A path is infeasible if it assumes a literal and its negation -- unless an object the literal
@@ -70,7 +70,9 @@ class Path:
         for g, pos in zip(self.guards, self.gpos):
             n = ir.negate(g)
             if n in seen:
-                if not _mutated_between(self.events[seen[n]:pos], g):
+                p0 = seen[n]
+                # a test of a value computed earlier (pos None) cannot have been invalidated in between
+                if p0 is None or pos is None or not _mutated_between(self.events[p0:pos], g):
                     return False
             seen.setdefault(g, pos)
         return True
@@ -125,8 +127,9 @@ def paths(events, unroll=2, exc=False, limit=200000, _top=True):
 
 def _alts(ev, unroll, exc, limit):
     if isinstance(ev, ir.If):
-        a = [Path((ev.cond,)).extend(p.guards, p.events, p.exit, p.gpos) for p in paths(ev.then, unroll, exc, limit, False)]
-        b = [Path((ir.negate(ev.cond),)).extend(p.guards, p.events, p.exit, p.gpos)
+        g0 = (0,) if ev.fresh else (None,)
+        a = [Path((ev.cond,), gpos=g0).extend(p.guards, p.events, p.exit, p.gpos) for p in paths(ev.then, unroll, exc, limit, False)]
+        b = [Path((ir.negate(ev.cond),), gpos=g0).extend(p.guards, p.events, p.exit, p.gpos)
              for p in paths(ev.orelse, unroll, exc, limit, False)]
         return [p for p in a + b if p.feasible()]
     if isinstance(ev, ir.Loop):
@@ -174,7 +177,7 @@ def _alts(ev, unroll, exc, limit):
                     for h in ev.handlers:
                         for hp in paths(h.body, unroll, exc, limit, False):
                             head = Path(bp.guards, bp.events[:i] + (Raised(e, getattr(e, "line", 0)),), None,
-                                        tuple(min(g, i) for g in bp.gpos))
+                                        tuple(min(g, i) if g is not None else None for g in bp.gpos))
                             alts.append(head.extend((("handler", h.exc),) + hp.guards, hp.events, hp.exit,
                                                     (0,) + tuple(hp.gpos)))
         return alts
